@@ -77,10 +77,10 @@ class Check:
             _PROG_CACHE.setdefault('p', {})[key] = self._prog[key]
         return self._prog[key]
 
-    def bridge(self, profile='dev', ignore_case=False):
-        key = (profile, ignore_case)
+    def bridge(self, profile='dev', ignore_case=False, sync=False):
+        key = (profile, ignore_case, sync)
         if key not in self._bridges:
-            self._bridges[key] = artifacts.Bridge(profile, ignore_case)
+            self._bridges[key] = artifacts.Bridge(profile, ignore_case, sync)
         return self._bridges[key]
 
     def new_engine(self, prog=None, summarise=('solve_expression', 'search', 'match_all', 'match_of', 'slow_aho'),
